@@ -128,8 +128,20 @@ func (j *Job) modelBudget(id string) bool {
 	// a violation that shows on every template is witnessed on the first sites only (the other
 	// sites are counted as further instances): keeps a badly broken tree from taking hours
 	n, _ := globalModelBudget.LoadOrStore(id, new(int64))
-	return atomic.AddInt64(n.(*int64), 1) <= 60
+	if atomic.AddInt64(n.(*int64), 1) > 60 {
+		return false
+	}
+	return modelAttempt(id)
 }
+
+// modelAttempt: hard cap on witness searches per obligation kind in one check run (refunds and
+// second passes included).
+func modelAttempt(id string) bool {
+	a, _ := globalModelAttempts.LoadOrStore(id, new(int64))
+	return atomic.AddInt64(a.(*int64), 1) <= 150
+}
+
+var globalModelAttempts sync.Map
 
 var globalModelBudget sync.Map
 
@@ -370,6 +382,9 @@ func (e *Engine) lateWitnesses(jr *JobResult) {
 		for k := 0; k < len(refs); k += step {
 			r := refs[k]
 			ob := &r.p.Obligations[r.oi]
+			if !modelAttempt(id) {
+				break
+			}
 			if res, mod := checkModelWith(solver, e, r.p.Fresh, r.p.Prefs, ob.Q); res == Sat && mod != nil && modelValid(mod, ob.Q) {
 				ob.Model = mod
 				ob.Details = "witness found in the second pass"
